@@ -203,6 +203,20 @@ func (z *zbCtx) addAtom(a Atom) {
 	if t.Op != "bin" || len(t.Args) != 2 {
 		return
 	}
+	// s == "" is len(s) == 0; s != "" is len(s) ≥ 1
+	if t.Name == "==" && (t.Args[1].IsConst(`""`) || t.Args[0].IsConst(`""`)) {
+		s := t.Args[0]
+		if s.IsConst(`""`) {
+			s = t.Args[1]
+		}
+		l := z.linLen(s)
+		if a.Pos {
+			z.eq(l, linConst(0), a.String())
+		} else {
+			z.fact(l.add(linConst(1), -1), a.String())
+		}
+		return
+	}
 	if !isIntegerish(t.Args[0]) && !isIntegerish(t.Args[1]) {
 		return
 	}
